@@ -1039,3 +1039,85 @@ def gen_ncdep(rng):
             steps.append(estep(cur, "tamper: wipe all declared outputs", [[p, None] for p in sorted(H.all_out_paths(cur))]))
             build()
     return {"ws": ws, "algo": rng.choice(["xxh3", "sha256"]), "steps": steps, "tags": ["ncdep"]}
+
+
+def gen_testcmd(rng, minimal=False):
+    """`grog test` next to `grog build`: libraries with tests (target names ending in `test`; a test step selects the tests and their
+    dependency closure, a build step the other targets), the cache disabled in each of the three ways the setting can be given:
+    --enable-cache=false, GROG_ENABLE_CACHE=false, `enable_cache = false` in grog.toml"""
+    algo = rng.choice(["xxh3", "sha256"])
+    ws = {"targets": {}, "aliases": {}, "files": {}, "links": {}}
+    tests, others = [], []
+    for i in range(rng.randint(1, 2)):
+        pkg = "p%d" % i
+        ws["files"]["%s/e%d.txt" % (pkg, i)] = "v%d\n" % rng.randint(0, 99)
+        ws["files"]["%s/t%d.txt" % (pkg, i)] = "v%d\n" % rng.randint(0, 99)
+        lib = H.lab(pkg, "lib%d" % i)
+        ws["targets"][lib] = mk_target(pkg, "lib%d" % i, ["e%d.txt" % i], [others[0]] if others and rng.random() < 0.5 else [], ["o%d.txt" % i],
+                                       salt="s%d" % rng.randint(0, 9))
+        others.append(lib)
+        tl = H.lab(pkg, "lib%d_test" % i)
+        ws["targets"][tl] = mk_target(pkg, "lib%d_test" % i, ["t%d.txt" % i], [lib], ["r%d.txt" % i] if rng.random() < 0.5 else [],
+                                      salt="s%d" % rng.randint(0, 9))
+        tests.append(tl)
+    if rng.random() < 0.6:
+        ws["targets"]["//pz:app"] = mk_target("pz", "app", [], [others[0]], ["app.txt"])
+        others.append("//pz:app")
+    toml_on = 'hash_algorithm = "%s"\n' % algo
+    toml_off = toml_on + "enable_cache = false\n"
+    cur = ws
+
+    def st(cmd, **kw):
+        return bstep(minimal, cmd=cmd, patterns=sorted(tests) if cmd == "test" else sorted(others), **kw)
+    steps = [st("test"), st("build"), st("test")]
+    for _ in range(rng.randint(3, 4)):
+        cmd = rng.choice(["test", "test", "build"])
+        way = rng.choice(["flag", "env", "toml"])
+        if rng.random() < 0.3:
+            e = H.gen_edit(rng, cur, ["content", "salt"])
+            if e and H.wf(e[0]):
+                steps.append(estep(e[0], e[2], e[1]))
+                cur = e[0]
+        if way == "toml":
+            steps.append(estep(cur, "grog.toml: enable_cache = false", [["grog.toml", toml_off]]))
+        steps.append(st(cmd, enable_cache=False, disable_via=way))
+        if way == "toml":
+            steps.append(estep(cur, "grog.toml: enable_cache back to the default", [["grog.toml", toml_on]]))
+        if rng.random() < 0.6:
+            steps.append(st(rng.choice(["test", "build"])))
+            if rng.random() < 0.5:
+                steps.append(st("test"))
+    return {"ws": ws, "algo": algo, "steps": steps, "tags": ["testcmd", "oracle-only"] + (["minimal"] if minimal else [])}
+
+
+def gen_bigout(rng, minimal=False):
+    """a NO-CACHE target (root or middle of the graph) rewrites a 9 MiB file output in every build; its cached dependants must stay
+    cached while the bytes are the same, and re-run when they really change"""
+    has_gen = rng.random() < 0.6
+    ws = {"targets": {}, "aliases": {}, "links": {}, "files": {"pg/gen.in": "payload%d\n" % rng.randint(0, 99), "pp/pack.in": "p%d\n" % rng.randint(0, 99)}}
+    if has_gen:
+        ws["targets"]["//pg:gen"] = H.raw_target("pg", "gen", ["gen.in"], [], ["gen.out"], "tr a-z A-Z < gen.in > gen.out")
+    ws["targets"]["//pp:pack"] = H.raw_target("pp", "pack", ["pack.in"], ["//pg:gen"] if has_gen else [], ["pack.bin"],
+                                              "{ cat pack.in" + (" ../pg/gen.out" if has_gen else "") + "; head -c 9437184 /dev/zero; } > pack.bin", nocache=True)
+    ws["targets"]["//ps:sum"] = H.raw_target("ps", "sum", [], ["//pp:pack"], ["sum.out"], "cksum < ../pp/pack.bin > sum.out")
+    if rng.random() < 0.5:
+        ws["targets"]["//pr:report"] = H.raw_target("pr", "report", [], ["//ps:sum"], ["report.out"], "sed 's/^/sum: /' ../ps/sum.out > report.out")
+    steps = [bstep(minimal), bstep(minimal), bstep(minimal)]
+    cur = ws
+    for _ in range(rng.randint(1, 2)):
+        r = rng.random()
+        if r < 0.4:
+            f = "pg/gen.in" if has_gen and rng.random() < 0.5 else "pp/pack.in"
+            w2 = copy.deepcopy(cur)
+            w2["files"][f] = "changed%d\n" % rng.randint(100, 999)
+            steps.append(estep(w2, "content of %s (pack.bin really changes)" % f))
+            cur = w2
+            steps.append(bstep(minimal))
+        elif r < 0.7 and has_gen:
+            steps.append({"k": "taint", "patterns": ["//pg:gen"]})
+            steps.append(bstep(minimal))
+        else:
+            steps.append(bstep(minimal, enable_cache=False))
+            steps.append(bstep(minimal))
+        steps.append(bstep(minimal))
+    return {"ws": ws, "algo": rng.choice(["xxh3", "sha256"]), "steps": steps, "tags": ["bigout", "oracle-only"] + (["minimal"] if minimal else [])}
